@@ -212,7 +212,7 @@ class Engine:
     def distinct_from_args(self, p: Path, r):
         """a newly allocated object is none of the arguments and occurs in none of the argument sequences"""
         for v in self.args.values():
-            if isinstance(v, (VRef, VCallback, VAttrs)):
+            if isinstance(v, (VRef, VCallback, VAttrs, VOptTable, VOpts)):
                 p.assume(r != v.term)
             elif isinstance(v, (VList, VSet, VDict)):
                 p.assume(r != v.ref)
@@ -247,6 +247,13 @@ class Engine:
         r = self.alloc(p, self.ct.Other, "container", name)
         p.st.write("elems", r, seq)
         return VList(r, elem_cname)
+
+    def new_strlist(self, p: Path, sseq, name="strlist"):
+        """a list object holding strings: contents in the heap field `selems`"""
+        r = self.alloc(p, self.ct.Other, "container", name)
+        p.st.write("elems", r, T.EMPTY())
+        p.st.write("selems", r, sseq)
+        return VList(r, "<str>")
 
     def new_set(self, p: Path, elem_cname=None, name="set"):
         r = self.alloc(p, self.ct.Other, "container", name)
@@ -320,6 +327,11 @@ class Engine:
         if ty.startswith("dict"):
             t = z3.Const(nm, Ref)
             return VDict(t, None), facts
+        if ty in ("opttable", "opts"):
+            t = z3.Const(nm, Ref)
+            facts.append(t != NONE)
+            facts.append(T.cls_of(t) == self.ct.Other)
+            return (VOptTable(t) if ty == "opttable" else VOpts(t)), facts
         # object reference of a repo class, optionally nullable
         nullable = ty.endswith("?")
         cn = ty.rstrip("?")
@@ -377,6 +389,8 @@ class Engine:
         self.ghost_measure = spec.measure
         for (_lbl, r) in spec.requires:
             p.assume(r)
+        for g_ in spec.gdefs:
+            p.assume(g_)
         p.schemas.extend(spec.assume_schemas)
         return fi, c, p, args, spec
 
@@ -658,6 +672,8 @@ class Engine:
             return T.eq(value.ref, S_(expected.ref))
         if isinstance(expected, VCls):
             return T.eq(value.term, S_(expected.term)) if isinstance(value, VCls) else z3.BoolVal(False)
+        if isinstance(expected, (VOpts, VOptTable)):
+            return T.eq(value.term, S_(expected.term)) if type(value) is type(expected) else z3.BoolVal(False)
         raise Unsupported(f"result comparison for {type(expected).__name__}")
 
     # ------------------------------------------------------------------ statements
@@ -883,7 +899,9 @@ class Engine:
             return VStr(T.fresh(name, Str))
         if isinstance(v, VSeq):
             return VSeq(T.fresh(name, RSeq), v.elem_cname, v.kind)
-        if isinstance(v, (VList, VSet, VDict, VCls, VCallback, VOpaque, VConst, VPyTuple)):
+        if isinstance(v, VOpts):
+            return VOpts(T.fresh(name, Ref))
+        if isinstance(v, (VList, VSet, VDict, VCls, VCallback, VOpaque, VConst, VPyTuple, VOptTable, VStrSet, VMro)):
             return v       # identity of containers does not change; contents are heap
         raise Unsupported(f"havoc of local {name}: {type(v).__name__}")
 
@@ -1138,7 +1156,59 @@ class Engine:
             results.append((e, None))
         return results
 
+    def run_for_strs(self, st, p: Path, it: VList):
+        """for s in <list of strings>: prefix-based cut over the string sequence (L.prefix / L.seq are sequences of strings)"""
+        ls = self.loop_spec(st)
+        SSeq = T.SSeq
+        seq = p.st.read("selems", it.ref)
+        entry_st = p.st.copy()
+        entry_env = dict(p.env)
+        entry_out = p.out
+
+        def mk(env, prefix, elem=None, stt=None, suffix=None):
+            L = LoopCtx(env, entry_st, self.pre, prefix, seq, elem, self.args, self)
+            L.entry_env = entry_env
+            L.entry_out = entry_out
+            L.cur = stt
+            L.suffix = suffix
+            return L
+        self.check_inv(p, self.call_inv(ls, 'entry', p, mk(p.env, z3.Empty(SSeq))), "entry", ls, entry_st)
+        results = []
+        assigned = self.assigned_names(st)
+        q = p.copy()
+        q.trail.append(f"L{ls.ordinal}i")
+        pre, x, suf = T.fresh("spre", SSeq), T.fresh("sx", Str), T.fresh("ssuf", SSeq)
+        q.assume(seq == z3.Concat(pre, z3.Unit(x), suf))
+        for n in assigned:
+            if n in q.env:
+                q.env[n] = self.havoc_local(n, q.env[n])
+        self.assume_inv(q, self.call_inv(ls, 'assume', q, mk(q.env, pre, elem=x, suffix=suf)), entry_st)
+        body_res = []
+        if self.feasible(q):
+            for (q1, c1) in self.assign(st.target, VStr(x), q):
+                if c1 is not None:
+                    results.append((q1, c1))
+            body_res = self.exec_block(st.body, q)
+        for (r, ctrl) in body_res:
+            if ctrl is None or ctrl[0] == "continue":
+                self.check_inv(r, self.call_inv(ls, 'check', r, mk(r.env, z3.Concat(pre, z3.Unit(x)), stt=r.st)), "preserve", ls, entry_st)
+            elif ctrl[0] == "break":
+                results.append((r, None))
+            else:
+                results.append((r, ctrl))
+        e = p.copy()
+        e.trail.append(f"L{ls.ordinal}x")
+        for n in assigned:
+            if n in e.env:
+                e.env[n] = self.havoc_local(n, e.env[n])
+        self.assume_inv(e, self.call_inv(ls, 'exit', e, mk(e.env, seq)), entry_st, finished=True)
+        if self.feasible(e):
+            results.append((e, None))
+        return results
+
     def run_for(self, st, p: Path, it: V):
+        if isinstance(it, VList) and it.elem_cname == "<str>":
+            return self.run_for_strs(st, p, it)
         if isinstance(it, VConst) and isinstance(it.value, tuple) and it.value[0] == "items":
             return self.run_for_items(st, p, it.value[1])
         if isinstance(it, VConst) and isinstance(it.value, tuple) and it.value[0] == "range":
